@@ -1960,6 +1960,37 @@ func poolFacts(f *facts) {
 	if fd := fn("base/logallocator.go", "NewRecord", "LogAllocator"); fd != nil && fd.Body != nil && len(fd.Body.List) >= 2 {
 		f.strs["pool_new_head"] = skeleton(fd.Body.List[:2])
 	}
+	f.note["pool_release_sites"] = "every call of LogAllocator.Release in the product (file:function, in source order): the parser for a malformed line, the input's extraction stage for a dropped record, the processing worker for a dropped record and once per output"
+	var rs []string
+	for _, dir := range []string{"base", "input", "orchestrate", "output", "transform", "run", "buffer"} {
+		filepath.Walk(filepath.Join(repoRoot, dir), func(path string, info os.FileInfo, err error) error {
+			if err != nil || info.IsDir() || !strings.HasSuffix(path, ".go") || strings.HasSuffix(path, "_test.go") || strings.HasSuffix(path, "_verif.go") {
+				return nil
+			}
+			rel, _ := filepath.Rel(repoRoot, path)
+			file := parse(rel)
+			if file == nil {
+				return nil
+			}
+			for _, d := range file.Decls {
+				fd, ok := d.(*ast.FuncDecl)
+				if !ok || fd.Body == nil {
+					continue
+				}
+				inspect(fd.Body, func(n ast.Node) bool {
+					if c, ok := n.(*ast.CallExpr); ok {
+						if fun := src(c.Fun); strings.HasSuffix(fun, "llocator.Release") && len(c.Args) == 1 {
+							rs = append(rs, fmt.Sprintf("%s:%s:%s", rel, fd.Name.Name, fun))
+						}
+					}
+					return true
+				})
+			}
+			return nil
+		})
+	}
+	sort.Strings(rs)
+	f.strs["pool_release_sites"] = rs
 	f.note["parse_unescaped_assignment"] = "syslogparser.go Parse: every assignment to record.Unescaped at the top level of the function body (none inside a branch)"
 	f.strs["parse_unescaped_assignment"] = nil
 	if fd := fn("input/syslogparser/syslogparser.go", "Parse", "syslogParser"); fd != nil && fd.Body != nil {
